@@ -433,9 +433,15 @@ fn kind_inner(schema: &Value, value: Option<&Value>, defs: &Defs, depth: u32) ->
                         } else {
                             "array"
                         };
-                        match (it, elems.first()) {
-                            (Some(it), Some(e)) if deep => {
-                                format!("{base}[{}]", kind_with_value(it, Some(e), defs, depth + 1))
+                        match (it, elems.is_empty()) {
+                            (Some(it), false) if deep => {
+                                // every distinct element kind (an array default may mix variants)
+                                let ks: BTreeSet<String> = elems
+                                    .iter()
+                                    .take(6)
+                                    .map(|e| kind_with_value(it, Some(e), defs, depth + 1))
+                                    .collect();
+                                format!("{base}[{}]", ks.into_iter().collect::<Vec<_>>().join("|"))
                             }
                             _ => base.into(),
                         }
@@ -466,8 +472,15 @@ fn kind_inner(schema: &Value, value: Option<&Value>, defs: &Defs, depth: u32) ->
                             _ => base.into(),
                         }
                     }
-                    (false, Some(a)) => match (members.and_then(|m| m.values().next()), deep) {
-                        (Some(v), true) => format!("map[{}]", kind_with_value(a, Some(v), defs, depth + 1)),
+                    (false, Some(a)) => match (members, deep) {
+                        (Some(m), true) if !m.is_empty() => {
+                            let ks: BTreeSet<String> = m
+                                .values()
+                                .take(6)
+                                .map(|v| kind_with_value(a, Some(v), defs, depth + 1))
+                                .collect();
+                            format!("map[{}]", ks.into_iter().collect::<Vec<_>>().join("|"))
+                        }
                         _ => "map".into(),
                     },
                     (false, None) => "map".into(),
@@ -495,7 +508,7 @@ pub fn site_class(stripped_schema: &Value, value: &Value, defs: &Defs) -> String
 /// Atoms of a class string: the node descriptions without container syntax.
 pub fn class_atoms(class: &str) -> BTreeSet<String> {
     class
-        .split(|c| matches!(c, '[' | ']' | '{' | '}' | ',' | '>' | '+'))
+        .split(|c| matches!(c, '[' | ']' | '{' | '}' | ',' | '>' | '+' | '|'))
         .map(|s| s.trim().to_string())
         .filter(|s| !s.is_empty())
         .collect()
